@@ -555,6 +555,17 @@ def _compute_constraints_of_bound_function(expression):
         value = expression.function.args[0].type.integer.minimum_value
     else:
         assert False, "Non-bound function"
+    if _is_infinite(value):
+        # There is no integer that bounds the argument.  "infinity" is not a
+        # value, so the result must not be marked as a constant (the arithmetic
+        # operators cannot compute with a constant "infinity"); instead, nothing
+        # is known about it.  Any run-time use is then reported by
+        # constraints.check_constraints() as an unbounded integer range.
+        expression.type.integer.minimum_value = "-infinity"
+        expression.type.integer.maximum_value = "infinity"
+        expression.type.integer.modular_value = "0"
+        expression.type.integer.modulus = "1"
+        return
     expression.type.integer.minimum_value = value
     expression.type.integer.maximum_value = value
     expression.type.integer.modular_value = value
